@@ -212,7 +212,7 @@ fn exh3<K: BoolKind>(order: &[u32], threads: u32, aq_sample: u64, sub_sample: u6
 pub fn run(cfg: &Cfg) -> i32 {
     let start = Instant::now();
     let checks = Checks { canon: false, structure: false, rc: false, node_count: false };
-    if let Some(path) = &cfg.replay {
+    if let Some(path) = cfg.replay.as_ref().filter(|p| replay_case_is(p, |c| is_bool_kind(c) && c["ops"].is_array())) {
         let v: serde_json::Value = serde_json::from_str(&std::fs::read_to_string(path).expect("replay file")).expect("json");
         let case = &v["case"];
         let r = match case["kind"].as_str().unwrap_or("") {
